@@ -3,6 +3,7 @@ pub mod c01;
 pub mod c02;
 pub mod common;
 pub mod fixed;
+pub mod hist;
 pub mod streams;
 
 use crate::worker::W;
@@ -17,6 +18,11 @@ pub fn dispatch(w: &mut W) {
         "C05" => streams::run_c05(w),
         "C09" => streams::run_c09(w),
         "C10" => streams::run_c10(w),
+        "C06" => hist::run_c06(w),
+        "C07" => hist::run_c07(w),
+        "C11" => hist::run_c11(w),
+        "C12" => hist::run_c12(w),
+        "C14" => hist::run_c14(w),
         other => {
             eprintln!("no worker for property {}", other);
             std::process::exit(2);
